@@ -1114,3 +1114,66 @@ def deciders(body, blk, limit=16):
                 out.append((cur, kind, text, truth))
         cur = idom(body, cur)
     return out
+
+
+# --------------------------------------------------------------------------- tests on an enum value (match arms, matches!)
+
+def enum_tests(prog, body, adt):
+    """tests of values of enum `adt` in body: discriminant switches (one test per listed variant) and `matches!`-style
+    bool summaries (every arm only sets one bool local to a constant): [{variants:set, true:set, false:set, blk}]"""
+    names = variant_names(prog, adt) or {}
+    allv = set(names.values())
+    out = []
+    tail = adt.split("::")[-1]
+    for (i, j, p, rv, line) in body.assigns():
+        if rv[0] != "disc" or len(p) != 1:
+            continue
+        ty = body.local_ty(rv[1][0])
+        if tail not in ty:
+            continue
+        for sbk in body.live_blocks():
+            tt = body.term(sbk)
+            if tt["t"] != "switch" or op_place(tt["on"]) != p:
+                continue
+            listed = {}
+            for v, tgt in tt["cases"]:
+                listed.setdefault(tgt, set()).add(names.get(int(v), "?"))
+            else_live = body.term(tt["else"])["t"] != "unreachable"
+            arms = dict((tgt, vs) for tgt, vs in listed.items())
+            if else_live:
+                arms.setdefault(tt["else"], set()).update(allv - set(x for vs in listed.values() for x in vs))
+            for tgt, vs in arms.items():
+                others = set(t2 for t2 in arms if t2 != tgt)
+                out.append({"variants": set(vs), "true": {tgt}, "false": others, "blk": sbk})
+            flag = {}
+            for tgt, vs in arms.items():
+                for s_ in body.stmts(tgt):
+                    if s_[0] == "=" and len(s_[1]) == 1 and s_[2][0] == "use" and op_const(s_[2][1]) is not None and \
+                            op_const(s_[2][1]).get("ty") == "bool":
+                        flag.setdefault(s_[1][0], {})[tgt] = const_int(s_[2][1]) == 1
+            for loc, m in flag.items():
+                if set(m) != set(arms):
+                    continue
+                true_vs = set(x for tgt, v in m.items() if v for x in arms[tgt])
+                for (sb2, neg) in bool_switches(body, loc):
+                    tr, fa = switch_edges_on_local(body, sb2)
+                    if neg:
+                        tr, fa = fa, tr
+                    out.append({"variants": true_vs, "true": set(tr), "false": set(fa), "blk": sb2})
+    return out, allv
+
+
+def enum_at(body, tests, allv, blk):
+    """variants the tested value may have when blk runs"""
+    may = set(allv)
+    for t in tests:
+        sb = t["blk"]
+        if not body.dominates(sb, blk) or sb == blk:
+            continue
+        via_true = blk in t["true"] or blk in body.reachable_from(list(t["true"]), avoid={sb})
+        via_false = blk in t["false"] or blk in body.reachable_from(list(t["false"]), avoid={sb})
+        if via_true and not via_false:
+            may &= t["variants"]
+        elif via_false and not via_true:
+            may -= t["variants"]
+    return may
